@@ -459,14 +459,13 @@ class Process:
             # is_running() (which caches that answer) can no longer tell.
             msg = "process no longer exists"
             raise NoSuchProcess(self.pid, self._name, msg=msg)
-        if self._pid_reused or (not self.is_running() and self._pid_reused):
-            # We may directly raise NSP in here already if PID is just
-            # not running, but I prefer NSP to be raised naturally by
-            # the actual Process API call. This way unit tests will tell
-            # us if the API is broken (aka don't raise NSP when it
-            # should). We also remain consistent with all other "get"
-            # APIs which don't use _raise_if_pid_reused().
-            msg = "process no longer exists and its PID has been reused"
+        if not self.is_running():
+            # Also raise if the process is just gone (PID not reused
+            # yet): by the time the actual Process API call is made
+            # the PID may have been assigned to another process.
+            msg = "process no longer exists"
+            if self._pid_reused:
+                msg += " and its PID has been reused"
             raise NoSuchProcess(self.pid, self._name, msg=msg)
 
     @property
